@@ -10,6 +10,7 @@ import (
 
 	"github.com/wi1dcard/fingerproxy/pkg/http2/hpack"
 	"verif/ev"
+	"verif/deep"
 	"verif/ref/hpackref"
 )
 
@@ -146,6 +147,10 @@ func (n *node) key() string {
 	ff, saved := hpack.VerifC18DecoderCarry(n.dec)
 	fmt.Fprintf(&sb, " D%v/%d ", ff, saved)
 	dumpKey(&sb, hpack.VerifC18DecoderTable(n.dec))
+	if genericState {
+		sb.WriteString(" G")
+		sb.Write(deep.Key(deep.Key(nil, n.enc), n.dec))
+	}
 	return sb.String()
 }
 
@@ -165,8 +170,8 @@ type stepResult struct {
 func step(n *node, g gap, block []F) (r stepResult) {
 	sk := &sink{}
 	nn := &node{ref: n.ref.Clone()}
-	nn.enc = hpack.VerifC18CloneEncoder(n.enc, sk)
-	nn.dec = hpack.VerifC18CloneDecoder(n.dec, func(hpack.HeaderField) {})
+	nn.enc = cloneEncoder(n.enc, sk)
+	nn.dec = cloneDecoder(n.dec, func(hpack.HeaderField) {})
 	fail := func(sig map[string]any, format string, a ...any) stepResult {
 		sig["part"] = "roundtrip"
 		r.sig = sig
